@@ -241,6 +241,9 @@ func c05Helpers(eng *twig.Engine) {
 	eng.RegisterString("inc", "[inc {{ a }}]")
 	eng.RegisterString("base", "<{% block body %}base{% endblock %}|{% block other %}o{% endblock %}>")
 	eng.RegisterString("macros", "{% macro m(p, q = 2) %}({{ p }},{{ q }}){% endmacro %}{% macro n() %}n{% endmacro %}")
+	// nested includes and macro look-ups through several contexts: what a later, healthy render needs
+	eng.RegisterString("c05mid", "({% include 'inc' with {'a': 'M'} %}{% macro z() %}z{% endmacro %}{{ _self.z() }}{% include 'inc' %})")
+	eng.RegisterString("c05nest", "{% import 'macros' as mm %}<{% include 'inc' %}{% include 'c05mid' %}{{ mm.m(1) }}{% for i in [1, 2] %}{% include 'c05mid' with {'a': i} %}{% endfor %}>")
 }
 
 // c05Reuse: after every case the same engine must still register, load and render. Two steps (register and
@@ -259,6 +262,13 @@ func c05Reuse(o *c05Obs, eng *twig.Engine, loaded string) {
 			}
 			if err == nil {
 				out2, err = eng.Render(loaded, map[string]interface{}{"a": "A1"})
+			}
+			for i := 0; i < 3 && err == nil; i++ {
+				var out3 string
+				out3, err = eng.Render("c05nest", map[string]interface{}{"a": "A1"})
+				if err == nil && out3 != "<[inc A1]([inc M]z[inc A1])(1,2)([inc M]z[inc 1])([inc M]z[inc 2])>" {
+					err = fmt.Errorf("nested includes afterwards give %q", out3)
+				}
 			}
 		})
 		switch {
@@ -479,10 +489,12 @@ func c05Child() {
 	// a second engine whose templates come from a loader; the map is the loader's own, so the source under
 	// test is swapped in place
 	c05LoaderSrc = map[string]string{
-		"inc":    "[inc {{ a }}]",
-		"base":   "<{% block body %}base{% endblock %}|{% block other %}o{% endblock %}>",
-		"macros": "{% macro m(p, q = 2) %}({{ p }},{{ q }}){% endmacro %}{% macro n() %}n{% endmacro %}",
-		"broken": "{% if %}",
+		"inc":     "[inc {{ a }}]",
+		"base":    "<{% block body %}base{% endblock %}|{% block other %}o{% endblock %}>",
+		"macros":  "{% macro m(p, q = 2) %}({{ p }},{{ q }}){% endmacro %}{% macro n() %}n{% endmacro %}",
+		"broken":  "{% if %}",
+		"c05mid":  "({% include 'inc' with {'a': 'M'} %}{% macro z() %}z{% endmacro %}{{ _self.z() }}{% include 'inc' %})",
+		"c05nest": "{% import 'macros' as mm %}<{% include 'inc' %}{% include 'c05mid' %}{{ mm.m(1) }}{% for i in [1, 2] %}{% include 'c05mid' with {'a': i} %}{% endfor %}>",
 	}
 	c05LoaderEngine = twig.New()
 	c05LoaderEngine.RegisterLoader(twig.NewArrayLoader(c05LoaderSrc))
